@@ -43,12 +43,17 @@ def run_with(text, enabled, count_swaps=False, opt=()):
     return rec, swaps[0]
 
 
+LOOSE = {"max_intrinsic_pka_diff": "3.5", "min_interaction_energy": "0.3", "max_free_energy_diff": "2.0",
+         "min_swap_pka_shift": "0.5", "max_pka": "12.0"}
+FLAGSETS = [None, {"shared_determinants": "1"}, {"shared_determinants": "1", "remove_penalised_group": "0"},
+            {"common_charge_centre": "1"}, {"remove_penalised_group": "0"}]
+
+
 def loose_cfg():
     """Parameter file with wider coupling thresholds (more coupled pairs, incl. ligand groups)."""
     path = os.path.abspath("loose_coupling.cfg")
     if not os.path.exists(path):
-        changed = {"max_intrinsic_pka_diff": "3.5", "min_interaction_energy": "0.3", "max_free_energy_diff": "2.0",
-                   "min_swap_pka_shift": "0.5", "max_pka": "12.0"}
+        changed = LOOSE
         out = []
         for line in open(os.path.join(os.environ.get("VERIF_REPO", "/repo"), "propka", "propka.cfg")):
             w = line.split()
@@ -60,6 +65,12 @@ def loose_cfg():
 def check_case(case):
     text = case["pdb"]
     opt = ["-p", loose_cfg()] if case.get("loose") else []
+    if case.get("flags"):
+        from vlib import cfgs
+        changes = dict(case["flags"])
+        if case.get("loose"):
+            changes.update(LOOSE)
+        opt = cfgs.options({"changes": changes})
     ron, swaps = run_with(text, True, count_swaps=True, opt=opt)
     roff, _ = run_with(text, False, opt=opt)
     if ron["error"] or roff["error"]:
@@ -243,9 +254,13 @@ def run_shard(ctx):
         if s.info.get("mutated") and len(s.text) % 3 == 0:
             text, tw = twinned(s, "A")
         case = {"pdb": text}
+        if len(text) % 5 == 0:
+            case["flags"] = FLAGSETS[1 + (len(text) // 5) % 4]
+            case["loose"] = bool((len(text) // 20) % 2)
+            s.labels.append("coupling-switches")
         s.labels.append("label-twins") if tw else None
         v, info = check_case(case)
-        info["labels"] = info.get("labels", []) + [l for l in s.labels if l.startswith("cluster:") or l in ("label-twins", "alt-loc-rotamers")]
+        info["labels"] = info.get("labels", []) + [l for l in s.labels if l.startswith("cluster:") or l in ("label-twins", "alt-loc-rotamers", "coupling-switches")]
         info["sample"] = {"structure": s.summary(), "threaded": s.info.get("mutated"), "swap_calls": info.get("swaps")}
         ctx.account(case, v, info)
 
@@ -258,16 +273,18 @@ def run_shard(ctx):
 
     ctx.hypothesis_stage("on-vs-off-after-a-display-run", cases(), after_display, 48 if quick else 1600)
 
-    names = ["1FTJ-Chain-A", "1HPX", "3SGB", "4DFR"]
+    names = [(n, loose, fl) for n in ("1FTJ-Chain-A", "1HPX", "3SGB", "4DFR") for loose in (False, True)
+             for fl in FLAGSETS]
     mine = [names[i] for i in ctx.my_slice(len(names))]
 
-    def corpus_body(n):
-        for loose in (False, True):
-            case = {"pdb": gen.corpus_text(n), "loose": loose}
-            v, info = check_case(case)
-            info["labels"] = info.get("labels", []) + (["loose-coupling-parameters"] if loose else [])
-            info["sample"] = {"structure": "corpus " + n, "loose_coupling_parameters": loose,
-                              "swap_calls": info.get("swaps")}
-            ctx.account(case, v, info)
+    def corpus_body(t):
+        n, loose, fl = t
+        case = {"pdb": gen.corpus_text(n), "loose": loose, "flags": fl}
+        v, info = check_case(case)
+        info["labels"] = info.get("labels", []) + (["loose-coupling-parameters"] if loose else []) + \
+            (["coupling-switches"] if fl else [])
+        info["sample"] = {"structure": "corpus " + n, "loose_coupling_parameters": loose, "switches": fl,
+                          "swap_calls": info.get("swaps")}
+        ctx.account(case, v, info)
 
     ctx.loop_stage("corpus-files", mine, corpus_body)
